@@ -1466,7 +1466,7 @@ func (e *engine) oracleLiveness(g *hnode, o *Out) {
 var keyAlphabet = []string{"k", "a", "b", "endpoint:e", "proxy_addr", "é✓"}
 var valAlphabet = []string{"", "v", "1", "2", "x y", "✓"}
 
-const settleMax = 1000000
+const settleMax = 100000
 
 func canonAddr(i int) string { return fmt.Sprintf("127.0.0.1:%d", 10000+i) }
 
